@@ -265,6 +265,7 @@ fn run_case(spec: &Spec, si: usize, idx: u64, seed: u64, thorough: bool, verbose
         rng: rng::Rng::for_case(seed, spec.id, rng::hash_str(s.name), idx),
         rep,
         thorough,
+        tiny: cfg!(miri) || std::env::var_os("VMON_TINY").is_some(),
         stream: si as u64,
         index: idx,
         verbose,
